@@ -493,6 +493,67 @@ fn family_macro(pairs: usize, lens: &[usize], with_commas: bool, wall: Duration)
     )
 }
 
+// (v) deep nesting: every sequence of d <= dmax openers over { ( < around `{a}`; every enclosing scope
+// contains a `{`, so all of them are broken over several lines and the indentation grows to depth d+1
+fn family_deep(dmax: usize, wall: Duration) -> Stats {
+    let start = Instant::now();
+    let col = Collector::new();
+    let mut seqs: Vec<Vec<u8>> = vec![vec![]];
+    let mut all: Vec<Vec<u8>> = vec![vec![]];
+    for _ in 0..dmax {
+        let mut next = vec![];
+        for s in &seqs {
+            for o in [b'{', b'(', b'<'] {
+                let mut n = s.clone();
+                n.push(o);
+                next.push(n);
+            }
+        }
+        all.extend(next.iter().cloned());
+        seqs = next;
+    }
+    all.par_iter().for_each(|openers| {
+        if col.stop.load(Ordering::Relaxed) {
+            return;
+        }
+        let mut input = String::new();
+        for o in openers {
+            input.push(*o as char);
+        }
+        input.push_str("{a}");
+        for o in openers.iter().rev() {
+            input.push(match o {
+                b'{' => '}',
+                b'(' => ')',
+                _ => '>',
+            });
+        }
+        col.states.fetch_add(1, Ordering::Relaxed);
+        col.transitions.fetch_add(1, Ordering::Relaxed);
+        match check_erasure(&input) {
+            Err((sig, d)) => col.violation(sig, d, &input),
+            Ok(out) => {
+                col.outcomes.lock().unwrap().insert(outcome_class(&out));
+                if let Err(e) = check_indentation(&out) {
+                    col.violation("C15/indentation".into(), format!("format_type_description({input:?}) = {out:?}: {e}"), &input);
+                }
+            }
+        }
+        if start.elapsed() > wall {
+            col.stop.store(true, Ordering::Relaxed);
+        }
+    });
+    let capped = col.stop.load(Ordering::Relaxed);
+    col.into_stats(
+        &format!("D-fmt(v): all nestings of <= {dmax} broken scopes over {{ ( < around `{{a}}` (indentation depth up to {})", dmax + 1),
+        dmax as u32,
+        start,
+        !capped,
+        if capped { Some(format!("wall cap {wall:?} hit")) } else { None },
+        vec!["(<{({a})}>)".into()],
+    )
+}
+
 // (iv) every description the crate itself produces for the Polkadot registry and the D-arms registries
 fn family_descriptions(wall: Duration) -> Stats {
     use crate::drivers::*;
@@ -561,6 +622,7 @@ pub fn run(tier: &str, seed: u64) -> i32 {
         report.add(family_macro(2, &[0, 1, 29, 30, 31, 32, 33], false, Duration::from_secs(30)));
         report.add(family_macro(1, &[0, 1, 29, 30, 31, 32, 33], true, Duration::from_secs(10)));
     }
+    report.add(family_deep(if thorough { 13 } else { 10 }, Duration::from_secs(if thorough { 600 } else { 60 })));
     report.add(family_descriptions(Duration::from_secs(120)));
     report.assumptions = vec![
         "termination is observed as completion of every call inside the run's wall budget (the formatter consumes one input character per loop iteration)".into(),
